@@ -30,7 +30,9 @@ ASSUMPTIONS = [
     'override the public hook callback_excepted to take a sample and nothing else (the default implementation calls fail(): C03). '
     'That hook runs after the callback\'s scope, in the callback\'s task: expected there is the previous value of that task = what '
     'the code that called call_soon observed at that moment (Process.current() and PROCESS_STACK read at the call_soon site); when '
-    'that is not the owner the sample is one more hook outside the scope (F14, hook-outside-scope:callback_excepted)',
+    'that is not the owner the sample is one more hook outside the scope (F14, hook-outside-scope:callback_excepted); programs stay '
+    'finite: callbacks schedule only later callbacks, and a class that callbacks instantiate (directly or through children) only '
+    'schedules callbacks that instantiate nothing',
     'the hook clause of the property is a recorded finding (F14): lifecycle hooks fired by transition_to / the constructor / close() '
     'run outside _process_scope; the theorems C18_current_in_scope(_partial) exclude exactly those, C18_full_false proves the literal '
     'statement false of the model, and the monitors report them as hook-outside-scope:<hook>',
